@@ -512,6 +512,9 @@ pub struct Chan {
     pub label: String,
     pub closed: bool,
     pub received: usize,
+    /// A slow consumer: nothing is read from the channel until the daemon has been stuck sending for a while
+    /// (or `resume` is called).
+    pub paused: bool,
 }
 
 pub struct Host {
@@ -707,7 +710,13 @@ impl World {
             if ctx.wait_parked(Duration::from_micros(300)) {
                 return;
             }
-            // The daemon may be blocked sending an event: drain and keep waiting.
+            // The daemon may be blocked sending an event: drain and keep waiting. A slow consumer gets round to
+            // its channel once the daemon has been stuck for 40 ms.
+            if start.elapsed() > Duration::from_millis(40) {
+                for c in self.chans.iter_mut().filter(|c| c.host == h) {
+                    c.paused = false;
+                }
+            }
             self.drain(h);
             if start.elapsed() > self.watchdog {
                 std::panic::panic_any(Inconclusive(format!(
@@ -1242,6 +1251,7 @@ impl World {
             label,
             closed: false,
             received: 0,
+            paused: false,
         });
         id
     }
@@ -1264,7 +1274,7 @@ impl World {
     /// Takes everything currently readable from the channels of host `h`.
     pub fn drain(&mut self, h: usize) {
         let mut got: Vec<(usize, Obs)> = Vec::new();
-        for c in self.chans.iter_mut().filter(|c| c.host == h && !c.closed) {
+        for c in self.chans.iter_mut().filter(|c| c.host == h && !c.closed && !c.paused) {
             macro_rules! pump {
                 ($rx:expr, $conv:expr) => {
                     loop {
